@@ -144,6 +144,12 @@ def build(world):
     def list_new(I, cls, a, k):
         if not a:
             return IList()
+        if isinstance(a[0], SList):
+            return SList(a[0].length, a[0].elt, a[0].iface, a[0].label + "(copy)")      # z3 terms are values: a true snapshot
+        if isinstance(a[0], RSeq) and a[0].kind == "list":
+            # a copy of a list of region objects: same objects, in the same order (the region's length is the copy's length as long as
+            # nothing is appended to / removed from the original while the copy is in use -- the callers' stated assumption)
+            return RSeq(a[0].region, a[0].keys, "list", a[0].label + "(copy)")
         if isinstance(a[0], (SList, RSeq)):
             raise OutOfReach("list() of symbolic collection")
         return IList(I.iterate(a[0]))
